@@ -47,6 +47,19 @@ pub const NEWCOMER_WITNESSED: usize = 1 << 21;
 /// adopted, dropped after three passes, and the sweep has to go on behind it.
 pub const NEWCOMER_ZOMBIE: usize = 1 << 22;
 
+thread_local! {
+    /// Set by the `gap_stray` sub-check for the duration of one case: a single stray character
+    /// reaches the station in the token visits v with v % m == r, between the poll in which the
+    /// station decided to pass the token on and its next poll.
+    static STRAY: std::cell::Cell<Option<(usize, usize)>> = const { std::cell::Cell::new(None) };
+}
+struct StrayGuard;
+impl Drop for StrayGuard {
+    fn drop(&mut self) {
+        STRAY.with(|s| s.set(None));
+    }
+}
+
 pub fn gap_case_full(ts: u8, ns: u8, hsa: u8, g: u8, newcomer: Option<(u8, usize)>, lose_after: Option<usize>, passive: &[u8], obs: &mut Obs) -> CaseResult {
     let newcomer_state = if newcomer.map(|n| n.1 & NEWCOMER_IN_RING != 0).unwrap_or(false) { 3 } else { 2 };
     let newcomer_witnessed = newcomer.map(|n| n.1 & NEWCOMER_WITNESSED != 0).unwrap_or(false);
@@ -79,6 +92,8 @@ pub fn gap_case_full(ts: u8, ns: u8, hsa: u8, g: u8, newcomer: Option<(u8, usize
     let mut reclaim_scan: Vec<u8> = vec![];
     let mut reclaim_tokens = 0;
     let mut reclaimed_at: Option<usize> = None;
+    let stray = STRAY.with(|s| s.get());
+    let mut stray_done: Option<usize> = None;
     while visits.len() < want_visits {
         w.now += w.step_us;
         ensure!(w.now < t_max, "gap-timeout", "only {} token visits within the simulated time (TS={ts} NS={ns} HSA={hsa} G={g})", visits.len());
@@ -92,6 +107,13 @@ pub fn gap_case_full(ts: u8, ns: u8, hsa: u8, g: u8, newcomer: Option<(u8, usize
             }
         });
         w.poll(&mut ());
+        if let Some((m, r)) = stray {
+            if seen_first_pass && visits.len() % m == r && stray_done != Some(visits.len()) && w.state_name() == "PassToken" {
+                w.bus.inject(ENV, w.now, &[0x00]);
+                stray_done = Some(visits.len());
+                obs.count("stray_characters", 1);
+            }
+        }
         // a real master repeats its token pass when the receiver stays silent for a slot time
         if let Some((since, attempts, from)) = awaiting_ts {
             if w.now > since + w.bit_us(300 + 40) && attempts < 2 {
@@ -649,13 +671,28 @@ fn gap_index_case(i: u64, gsel: u64, obs: &mut Obs) -> CaseResult {
 pub fn property() -> Property {
     Property {
         id: "C12",
-        rule: "cases: (a) one real station TS without applications whose successor NS is played by the environment (answers the GAP poll as ready master, holds the token, returns it): ALL (TS, NS, HSA) triples with HSA <= 40 (quick) / <= 126 (thorough), each with gap factor 1 and a second factor from {3, 2, 5, 10, 30, 100}; generated cases with a newcomer appearing inside the GAP mid-sweep. Oracle: status requests sent by the FDL go only to addresses strictly inside the cyclic interval (TS, NS) below HSA, never TS, NS or beyond; the post-claim scan polls the whole GAP at once up to the first responding master; afterwards at most one poll per token visit, targets ascend cyclically, a pause of G..G+2 visits between sweeps, every GAP address is swept, a ready newcomer becomes successor and gets the next token within |GAP|+G+3 visits. (b) status replies: generated listening / in-ring histories (token passes of a ring of 1..3 other stations, requests to TS and to other addresses from the predecessor and from others): replies only to requests addressed to TS, within the slot time, exactly one, state = in-ring iff is_in_ring(), else ready iff ready_for_ring() and the requester is the predecessor, else not ready; and, independent of the observers, never ready/in-ring before two complete rotations were witnessed, and ready to the predecessor after four. Non-trivial = every GAP case / every status case with at least one reply.",
+        rule: "cases: (a) one real station TS without applications whose successor NS is played by the environment (answers the GAP poll as ready master, holds the token, returns it): ALL (TS, NS, HSA) triples with HSA <= 40 (quick) / <= 126 (thorough), each with gap factor 1 and a second factor from {3, 2, 5, 10, 30, 100}; generated cases with a newcomer appearing inside the GAP mid-sweep; all triples with HSA <= 14 (quick) / 30 (thorough) with a single stray character reaching the station between the poll in which it decided to pass the token on and its next poll. Oracle: status requests sent by the FDL go only to addresses strictly inside the cyclic interval (TS, NS) below HSA, never TS, NS or beyond; the post-claim scan polls the whole GAP at once up to the first responding master; afterwards at most one poll per token visit, targets ascend cyclically, a pause of G..G+2 visits between sweeps, every GAP address is swept, a ready newcomer becomes successor and gets the next token within |GAP|+G+3 visits. (b) status replies: generated listening / in-ring histories (token passes of a ring of 1..3 other stations, requests to TS and to other addresses from the predecessor and from others): replies only to requests addressed to TS, within the slot time, exactly one, state = in-ring iff is_in_ring(), else ready iff ready_for_ring() and the requester is the predecessor, else not ready; and, independent of the observers, never ready/in-ring before two complete rotations were witnessed, and ready to the predecessor after four. Non-trivial = every GAP case / every status case with at least one reply.",
         assumptions: vec![
             "application traffic is absent in this check (the property speaks about the station's own GAP maintenance)",
             "N5 (DESIGN 7): a listening station that is ready moves to ActiveIdle after answering and then reports 'in ring' before it ever held the token; the oracle is phrased on is_in_ring(), which is what the station itself claims",
         ],
         subchecks: vec![
             SubCheck::index("gap_triples", "all (TS, NS, HSA) triples, two gap factors each", |i, obs| gap_index_case(i, i / 7, obs)),
+            SubCheck::index("gap_stray", "as gap_triples (HSA <= 14, gap factors 1 and 3) with a single stray character reaching the station between the poll in which it decided to pass the token on and its next poll (in every visit, or in every third): the sweep and the pause are what they are without it", |i, obs| {
+                let (ts, ns, hsa) = triple_by_index(i / 4);
+                if hsa < 2 {
+                    return Ok(());
+                }
+                let g = if i % 2 == 0 { 1 } else { 3 };
+                let sel = if (i / 2) % 2 == 0 { (1, 0) } else { (3, 1) };
+                obs.nontrivial(i);
+                if i % 499 == 0 {
+                    obs.sample(|| json!({"ts": ts, "ns": ns, "hsa": hsa, "gap_factor": g, "stray_character_in_visits": format!("v % {} == {}", sel.0, sel.1)}));
+                }
+                let _guard = StrayGuard;
+                STRAY.with(|s| s.set(Some(sel)));
+                gap_case(ts, ns, hsa, g, None, obs)
+            }),
             SubCheck::tape("gap_newcomer", "a master that reports to be ready (or, dropped from the ring without having noticed, to be in the ring) appears inside the GAP after some visits", |t, obs| {
                 let hsa = 3 + t.below(30) as u8;
                 let ts = t.below(u64::from(hsa)) as u8;
@@ -732,6 +769,7 @@ pub fn property() -> Property {
         plan: |tier| match tier {
             Tier::Quick => vec![
                 Step::Enumerate { kind: "gap_triples", count: 2 * triples_up_to(40) },
+                Step::Enumerate { kind: "gap_stray", count: 4 * triples_up_to(14) },
                 Step::Pbt { kind: "gap_newcomer", cases: 3000, max_len: 16 },
                 Step::Enumerate { kind: "foreign_reply", count: 24 },
                 Step::Pbt { kind: "gap_under_load", cases: 400, max_len: 120 },
@@ -741,6 +779,7 @@ pub fn property() -> Property {
             ],
             Tier::Thorough => vec![
                 Step::Enumerate { kind: "gap_triples", count: 2 * triples_up_to(126) },
+                Step::Enumerate { kind: "gap_stray", count: 4 * triples_up_to(30) },
                 Step::Pbt { kind: "gap_newcomer", cases: 20_000, max_len: 16 },
                 Step::Enumerate { kind: "foreign_reply", count: 24 },
                 Step::Pbt { kind: "gap_under_load", cases: 4000, max_len: 120 },
